@@ -7,7 +7,7 @@ the readers / writers, all regenerated from the AST of t2data.py on every run, f
 + H (coq/C01: hand model of the read_X / write_X methods and of t2data.read / write over
 Base/FixedFormat.v, run extracted against the implementation on generated objects, on their
 files and on the shipped data files) + oracle (the statement on the implementation alone)."""
-import os, sys, json, tempfile, shutil, time, random, collections, traceback
+import os, sys, json, tempfile, shutil, time, random, collections, traceback, struct
 from concurrent.futures import ProcessPoolExecutor
 import vf
 from translate import tables
@@ -120,12 +120,36 @@ def impl_read(main, mesh):
     except Exception as e: return ('RAISE', type(e).__name__)
 
 
+def fortran_records(path):
+    """the records of a Fortran unformatted file (4-byte length before and after each)"""
+    with open(path, 'rb') as f: data = f.read()
+    out, i = [], 0
+    while i < len(data):
+        n, = struct.unpack('i', data[i:i + 4])
+        rec = data[i + 4:i + 4 + n]
+        m, = struct.unpack('i', data[i + 4 + n:i + 8 + n])
+        if n != m or len(rec) != n: raise ValueError('broken record in %s' % path)
+        out.append(rec); i += 8 + n
+    return out
+
+
+def binary_records(d):
+    """MESHA / MESHB as written by the implementation, decoded by their known layout into the record tokens of the model"""
+    I = lambda r: mdl.L(mdl.val('I'), mdl.L(*[mdl.val(int(x)) for x in struct.unpack('%di' % (len(r) // 4), r)]))
+    D = lambda r: mdl.L(mdl.val('D'), mdl.L(*[mdl.val(float(x)) for x in struct.unpack('%dd' % (len(r) // 8), r)]))
+    S = lambda r: mdl.L(mdl.val('S'), mdl.L(*[mdl.val(r[k:k + 8].decode('latin-1')) for k in range(0, len(r), 8)]))
+    a, b = fortran_records(os.path.join(d, 'MESHA')), fortran_records(os.path.join(d, 'MESHB'))
+    ka, kb = [I] + [D] * 11 + [I, S, S], [I, S, I, I, I]
+    if len(a) != len(ka) or len(b) != len(kb): raise ValueError('MESHA / MESHB: %d / %d records' % (len(a), len(b)))
+    return mdl.L(mdl.L(*[k(r) for k, r in zip(ka, a)]), mdl.L(*[k(r) for k, r in zip(kb, b)]))
+
+
 def correspond(ctx, exe, n_specs, files=True):
     tmp = tempfile.mkdtemp(prefix='c01c_')
     rng = random.Random(ctx.rng.random())
     dist = collections.Counter()
     try:
-        wlines, wexp, rlines, rexp, hlines = [], [], [], [], []
+        wlines, wexp, rlines, rexp, hlines, blines, bexp, clines, cexp = [], [], [], [], [], [], [], [], []
         for i in range(n_specs):
             spec = gen.gen_spec(rng)
             cfg = spec['config']
@@ -142,6 +166,13 @@ def correspond(ctx, exe, n_specs, files=True):
                 if got is not None:
                     rlines.append('R\t%s\t%s\t%s' % (vf.hexs(res['main']), hexopt(res['mesh']), hexopt(res['pdat']))); rexp.append((spec, got))
                     dist['read'] += 1
+                if cfg.get('mesh') == 'binary':
+                    # the binary pair: the records the implementation wrote against the model's, and both readers on them
+                    recs = binary_records(d)
+                    blines.append('B\t' + '\t'.join(toks[3:])); bexp.append((spec, recs))
+                    got = impl_read(os.path.join(d, 'model.dat'), orc.mesh_arg('binary', d))
+                    if got is not None and not res['pdat']:
+                        clines.append('C\t%s\t%s' % (vf.hexs(res['main']), '\t'.join(recs))); cexp.append((spec, got))
             shutil.rmtree(d, ignore_errors=True)
         if files:
             for path, mesh in orc.shipped_files(ctx.repo):
@@ -179,18 +210,33 @@ def correspond(ctx, exe, n_specs, files=True):
             d = mdl.diff(m[1][0], got[1][0])
             if d: ctx.disagreement('model-read-vs-t2data.read', {'spec': spec}, d, 'model vs implementation')
         ctx.corr_cases('model-read-vs-t2data.read', len(rlines), **dict(dist))
+        for (spec, recs), mo in zip(bexp, run_drv(exe, blines)):
+            if not mo.startswith('OK\t') or mdl.parse(mo.split('\t')[1:]) != mdl.parse(recs):
+                ctx.disagreement('model-write_bin-vs-write_binary_meshfiles', {'spec': spec}, mo[:300], ' '.join(recs)[:300])
+        ctx.corr_cases('model-write_bin-vs-write_binary_meshfiles', len(blines))
+        for (spec, got), mo in zip(cexp, run_drv(exe, clines)):
+            if mo.startswith('OK\t'): m = ('OK', tree_of(mo.split('\t')[1:]))
+            else: m = ('RAISE', mo)
+            if got[0] == 'RAISE' and m[0] == 'RAISE': continue
+            if m[0] != got[0]: ctx.disagreement('model-read_bin-vs-read_binary_meshfiles', {'spec': spec}, repr(m)[:300], repr(got)[:300]); continue
+            d = mdl.diff(m[1][0], got[1][0])
+            if d: ctx.disagreement('model-read_bin-vs-read_binary_meshfiles', {'spec': spec}, d, 'model vs implementation')
+        ctx.corr_cases('model-read_bin-vs-read_binary_meshfiles', len(clines))
         # the model alone: hypotheses of t2data_read_write_partial met by generated objects; write/read/write/read/write
         hout = run_drv(exe, ['H\t' + t for _, t in hlines])
         iout = run_drv(exe, ['I\t' + t for _, t in hlines])
-        names = ['only-covered-sections', 'writes', 'no-extra-precision', 'end-keyword', 'title', 'chain_ok', 'all']
+        names = ['only-covered-sections', 'writes', 'no-extra-precision', 'end-keyword', 'title', 'chain_ok', 'all',
+                 'idem-covered-sections', 'write_idem-hypotheses', 'write_fixpoint-hypotheses']
         met = collections.Counter()
         for (spec, _), h, i in zip(hlines, hout, iout):
             for nm, b in zip(names, h): met[nm] += (b == '1')
-            if len(h) == 7 and h[0] == '1' and h[6] == '0': met['covered-but-not-met'] += 1
+            if len(h) == 10 and h[0] == '1' and h[6] == '0': met['covered-but-not-met'] += 1
+            if len(h) == 10 and h[6] == '1' and h[7] == '1' and h[9] == '0': met['idem-covered-but-not-met'] += 1
             if i != '11':
                 ctx.disagreement('model-write-read-cycles', {'spec': spec}, 'second file = first up to trailing blanks, third = second: %s' % i, 'expected 11')
         ctx.corr_cases('model-write-read-cycles', len(hlines))
-        ctx.hyp_met['t2data_read_write'] = dict(objects=len(hlines), **{k: met[k] for k in names + ['covered-but-not-met']})
+        ctx.hyp_met['t2data_read_write'] = dict(objects=len(hlines), **{k: met[k] for k in names[:7] + ['covered-but-not-met']})
+        ctx.hyp_met['t2data_write_idem'] = dict(objects=len(hlines), **{k: met[k] for k in names[7:] + ['idem-covered-but-not-met']})
     finally:
         shutil.rmtree(tmp, ignore_errors=True)
 
